@@ -714,6 +714,19 @@ func (e *FnExec) staticCallResultType(name string, k int) types.Type {
 	return nil
 }
 
+// ensurePanicCells creates the specification state behind panicking() / recovered().
+func (e *FnExec) ensurePanicCells(st *State) {
+	if e.panickingVar != nil {
+		return
+	}
+	e.panickingVar = Var("panicking@entry", "Bool")
+	e.ncell++
+	e.recoveredCell = e.ncell
+	e.cellType[e.ncell] = types.Typ[types.Bool]
+	e.cellName[e.ncell] = "recovered"
+	e.inputs = append(e.inputs, NamedTerm{"panicking()", e.panickingVar, "bool"})
+}
+
 // initCallArgGhosts pre-creates the ghost constants behind callarg(name, k).
 func (e *FnExec) initCallArgGhosts() {
 	if e.con == nil {
@@ -1120,8 +1133,22 @@ func (e *FnExec) builtin(st *State, b *ssa.Builtin, c *ssa.CallCommon, res ssa.V
 		e.set(res, r)
 	case "print", "println", "close":
 	case "recover":
-		e.note("recover() modelled as returning an arbitrary value")
-		e.setFresh(st, res, "recover")
+		// The unit may be a deferred function running while its caller panics (the entry flag
+		// `panicking`, either value). recover() returns non-nil exactly for the first call made
+		// while panicking, and that call stops the panic.
+		e.ensurePanicCells(st)
+		cur := st.cells[e.recoveredCell]
+		if cur == nil {
+			cur = False
+		}
+		active := And(e.panickingVar, Not(cur))
+		if res != nil {
+			e.setFresh(st, res, "recover")
+			if v := e.vals[res]; v.T != nil && v.T.Sort == "Iface" {
+				e.addFact(st, Eq(Neq(ITag(v.T), IntLit(0)), active))
+			}
+		}
+		st.cells[e.recoveredCell] = Or(cur, e.panickingVar)
 	case "ssa:wrapnilchk":
 		e.set(res, arg(0))
 	case "ssa:deferstack":
